@@ -300,7 +300,8 @@ def run(repo, rep, tier):
                     return ast.parse(tables[node.value.id][k], mode="eval").body
             return node
 
-    for ft, (fn, arg0) in RENDERER.items():
+    OTHER = {"RATING": "STAR_RATING_VALUE * int(self._d128)", "CHECKBOX": "CHECKBOX_TRUE_VALUE if self.value else CHECKBOX_FALSE_VALUE", "BOOLEAN": "'TRUE' if self.value else 'FALSE'"}
+    for ft, (fn, arg0) in list(RENDERER.items()) + [(k_, (None, v_)) for k_, v_ in OTHER.items() if k_ in FT]:
         sc = {f"FormatType.{a_}": b_ for a_, b_ in FT.items()}
         sc.update(tables)
         sc[f"{fmt_var}.HasField('custom_uid')"] = False
@@ -322,6 +323,17 @@ def run(repo, rep, tier):
         if len(hit) == 1 and hit[0].kind == "return":
             r = _Lookup(sc).visit(_Simp(asg).visit(_copy.deepcopy(_sstrip(hit[0].ret))))
             got = canon_text(r)
+        if fn is None:
+            # rating, checkbox, boolean: rendered in place from the cell's own value (string constants may be folded)
+            def _unfold(t):
+                for cname in ("STAR_RATING_VALUE", "CHECKBOX_TRUE_VALUE", "CHECKBOX_FALSE_VALUE"):
+                    if isinstance(repo.consts.get(cname), str):
+                        t = t.replace(repr(repo.consts[cname]), cname)
+                return t
+            want = _unfold(expect(arg0))
+            ok = got is not None and _unfold(got) == want
+            rep.ob("C13.R1", hit[0].node if hit else cf, f"FormatType.{ft} is rendered as `{arg0}`", ok, "" if ok else f"found `{got}`", key=f"C13.R1@dispatch:{ft}")
+            continue
         want = expect(f"{fn}({arg0}, {fmt_var}" + (", percent=True)" if ft == "PERCENT" else ")"))
         ok = got == want
         rep.ob("C13.R1", hit[0].node if hit else cf, f"FormatType.{ft} is rendered by {fn}({arg0}, custom_format)", ok, "" if ok else f"found `{got}`", key=f"C13.R1@dispatch:{ft}")
@@ -458,6 +470,7 @@ def run(repo, rep, tier):
 
 
 VARIANTS = [
+    M("rating-clamped-to-five", "cell.py", "            return STAR_RATING_VALUE * int(self._d128)", "            return STAR_RATING_VALUE * max(0, min(int(self._d128), 5))", "C13.R1"),
     M("decimals-from-raw-float", "cell.py", """            formatted_value = sigfig(value, MAX_SIGNIFICANT_DIGITS, type=str, warn=False)
             formatted_value = sigfig(
                 formatted_value,""", """            formatted_value = sigfig(
